@@ -95,6 +95,61 @@ impl Lay for S2 {
 }
 lay_common!(S2);
 
+/// size 3, align 1 (bucket array needs padding up to the control-byte alignment)
+#[derive(Clone, Copy)]
+pub struct S3(pub [u8; 3]);
+impl Lay for S3 {
+    const NAME: &'static str = "size3-align1";
+    const MAX_IDS: u8 = 255;
+    fn make(id: u8) -> Self {
+        S3([id, !id, id ^ 0x3c])
+    }
+    fn id(&self) -> u8 {
+        self.0[0]
+    }
+    fn intact(&self) -> bool {
+        self.0[1] == !self.0[0] && self.0[2] == self.0[0] ^ 0x3c
+    }
+}
+lay_common!(S3);
+
+/// size 6, align 2
+#[derive(Clone, Copy)]
+pub struct S6(pub [u16; 3]);
+impl Lay for S6 {
+    const NAME: &'static str = "size6-align2";
+    const MAX_IDS: u8 = 255;
+    fn make(id: u8) -> Self {
+        S6([id as u16, !(id as u16), 0x1234])
+    }
+    fn id(&self) -> u8 {
+        self.0[0] as u8
+    }
+    fn intact(&self) -> bool {
+        self.0[1] == !self.0[0] && self.0[2] == 0x1234 && (self as *const Self as usize) % 2 == 0
+    }
+}
+lay_common!(S6);
+
+/// size 0, align 16 (zero-sized but over-aligned: references must still be aligned)
+#[derive(Clone, Copy)]
+#[repr(align(16))]
+pub struct Z16;
+impl Lay for Z16 {
+    const NAME: &'static str = "size0-align16";
+    const MAX_IDS: u8 = 1;
+    fn make(_id: u8) -> Self {
+        Z16
+    }
+    fn id(&self) -> u8 {
+        0
+    }
+    fn intact(&self) -> bool {
+        (self as *const Self as usize) % 16 == 0
+    }
+}
+lay_common!(Z16);
+
 /// size 8, align 8
 #[derive(Clone, Copy)]
 pub struct S8(pub u64);
